@@ -301,6 +301,14 @@ def tokenize(s, data):
 
 
 # ---- projection onto the monitor alphabet -----------------------------------------------------------
+def _paired(s):
+    """Length fields that the schema pairs with a data field."""
+    key = ("paired", id(s))
+    if key not in _cache:
+        _cache[key] = {a.number for a, b in s.length_pairs()}
+    return _cache[key]
+
+
 def tok_events(s, tokens):
     """[(tag, value)] -> token records of Decode.tla (+ raw tag text `r`, type class `t` for labels)."""
     out = []
@@ -313,7 +321,7 @@ def tok_events(s, tokens):
         vt = v.decode("latin-1")
         rec = {"k": k, "v": safe(v), "c": int(vt) if re.fullmatch(r"\d{1,9}", vt) else 0,
                "k16": str(tn % 65536) if tn is not None else k, "r": safe(tag),
-               "t": "len" if (ft == "LENGTH" and tn != 9) else ("data" if ft == "DATA" else "")}
+               "t": ("len" if tn in _paired(s) else "lone") if (ft == "LENGTH" and tn != 9) else ("data" if ft == "DATA" else "")}
         out.append(rec)
     return out
 
